@@ -52,7 +52,9 @@ def run(ctx):
         pool = [c for c in conf if (c["kind"], c["ty"]) == k and (thorough or c["n"] <= 11)]
         pick_c += rnd.sample(pool, 6 if thorough else 2)
     pick_c += [c for c in conf if c["n"] == 48 and c["kind"] in ("MH", "Gibbs") and c["ty"] == "f64" and c["nc"] == 4 and c["nd"] == 0]
-    pick_f = faults if thorough else rnd.sample(faults, 8)
+    slowf = [c for c in faults if c["slow"] and c["drop_at"] <= c["nc"] + c["nd"] - 3]   # >= 3 slow transitions after the drop: a periodic send fails
+    fastf = [c for c in faults if not c["slow"]]
+    pick_f = faults if thorough else rnd.sample(fastf, 6) + rnd.sample(slowf, 3)
     jobs = [("schedule", c, 60) for c in pick_s] + [("config", c, 120) for c in pick_c] + [("fault", c, 30) for c in pick_f]
     with ThreadPoolExecutor(max_workers=5) as ex:
         results = list(ex.map(lambda j: child(*j), jobs))
@@ -66,7 +68,7 @@ def run(ctx):
         elif mode == "config":
             key = "progress-config %s %s" % (c["kind"], c["ty"])
         else:
-            key = "progress-fault drop_at=%d nc=%d nd=%d" % (c["drop_at"], c["nc"], c["nd"])
+            key = "progress-fault drop_at=%d nc=%d nd=%d%s" % (c["drop_at"], c["nc"], c["nd"], " slow" if c["slow"] else "")
         for w in res["why"]:
             detail = "%s (n=%s nc=%s nd=%s): %s" % (key, c.get("n", len(c.get("waits", []))), c["nc"], c["nd"], w[:300])
             ctx.violation(key, detail, {"direction": "replay", "spec": "Gen_Progress", "mode": mode, "case": c, "why": w})
